@@ -5,4 +5,5 @@ cd "$(dirname "$0")/lean"
 python3 ../translate/consts_extract.py >/dev/null 2>&1 || true
 python3 ../translate/asm_extract.py >/dev/null 2>&1 || true
 python3 ../translate/wraptable_extract.py >/dev/null 2>&1 || true
+python3 ../translate/shape_extract.py >/dev/null 2>&1 || true
 lake build MythVerif MythVerif.Proofs.JcArith drv_tls drv_mutex drv_cond drv_join drv_alloc drv_bulk drv_x86 drv_felock drv_env drv_time drv_jc drv_once drv_uncond drv_wsq drv_barrier drv_dag drv_pth
